@@ -14,7 +14,9 @@ LEVEL = "exploration"
 UNIVERSE = ["a", "b", "a.b", "x-y", "k=v", "A", "ab", "a,b"]      # (a tag may contain a comma: "a,b" is ONE tag, not a and b)
 OPERANDS = ["a", "b", "a.b", "x-y", "k=v", "A", "a*", "?.b", "[ab]"]
 OPERANDS_SMALL = ["a", "a*", "x-y"]
-RANDOM_OPERANDS = OPERANDS + ["*", "*.b", "[!a]", "a?", "k=*", "[a-b]*", "ab", "not_a", "and_b", "oreo"]
+RANDOM_OPERANDS = OPERANDS + ["*", "*.b", "[!a]", "a?", "k=*", "[a-b]*", "ab", "not_a", "and_b", "oreo",
+                              # fnmatch classes are negated by '!' only: a leading '^' is a member of the class
+                              "[^a]", "[^b]*", "a[^x]b"]
 RULE = ("expression trees over operands %s: exhaustive up to a leaf/depth bound (quick: <=2 leaves, thorough: <=3 "
         "leaves over 9 operands and <=4 leaves over 3 operands) plus random n-ary trees to depth 4; each rendered "
         "min/full/@-prefixed/redundant-parentheses-and-blanks/list-of-terms; each compared on the complete truth "
@@ -27,7 +29,7 @@ ASSUMPTIONS = [
 ]
 REQUIRED = {"v2.meaning": {"quick": 3000, "thorough": 100000}, "v2.print_roundtrip": {"quick": 3000, "thorough": 100000},
             "v2.config_substitution": 100, "v2.empty_selects_all": 3, "v2.list_form": 300, "v2.wip_adds_wip_term": 100, "v2.config_file_tags": 100, "v2.meaning_for_special_tag_names": 400, "v2.list_form_default_protocol": 500, "v2.meaning_for_any_iterable_of_tags": 1000}
-REQUIRED_SEEN = {"tag_name_class": ["compatibility_characters", "needs_escape"], "list_terms_shape": ["same_words_other_parentheses"], "console_encoding": ["cp1252", "latin-1", "cp850", "ascii", "utf-8"],
+REQUIRED_SEEN = {"terms_given_as": ["list", "tuple"], "tag_name_class": ["compatibility_characters", "needs_escape"], "list_terms_shape": ["same_words_other_parentheses"], "console_encoding": ["cp1252", "latin-1", "cp850", "ascii", "utf-8"],
                  "tags_given_as": ["generator", "iter", "map", "tuple", "frozenset", "dict_keys", "reversed"], "default_protocol_list_shape": ["only_single_tags"], "config_list_shape": ["placeholder_after_plain_part", "other"], "config_file_kind": ["toml", "ini"], "config_file_tag_names": ["with_hash_character", "ordinary"],
                  "config_file_mode": ["none", "plain", "placeholder", "placeholder_and_plain", "wip"]}
 EXHAUSTIVE = {"quick": True, "thorough": True}
@@ -230,7 +232,11 @@ def check_default_protocol_lists(lab, mon, rng):
         case = {"kind": "list-default-protocol", "text": texts, "protocol": proto.name if proto else "default (auto_detect)"}
         mon.case(case, True)
         try:
-            e = lab.make(list(texts)) if proto is None else lab.make(list(texts), proto)
+            # (the terms arrive as a list from the command line; API callers -- Configuration(tags=...), environment.py -- may hand
+            #  over a tuple just as well)
+            seq = list(texts) if rng.random() < 0.5 else tuple(texts)
+            mon.seen("terms_given_as", type(seq).__name__)
+            e = lab.make(seq) if proto is None else lab.make(seq, proto)
             got = T.truth_table_of(e.check, SUBSETS_PUNCT)
             mon.check("v2.list_form_default_protocol", got == want, lambda: dict(case=case, want=want, got=got, parsed=repr(e)))
             if all(t[0] == "lit" for t in terms):
@@ -505,7 +511,7 @@ def run(spec, mon):
         mon.case(case, True)
         want = T.truth_table(ast, SUBSETS)
         try:
-            got, e = lab.table(texts)
+            got, e = lab.table(texts if rng.random() < 0.5 else tuple(texts))
             mon.check("v2.list_form", got == want, lambda: dict(case=case, want=want, got=got, parsed=repr(e)))
         except Exception as ex:
             mon.check("v2.list_form", False, dict(case=case, error=repr(ex)))
